@@ -46,7 +46,8 @@ def source_state(V):
     d = V.describe()
     return {'values': np.asarray(V.values, float).copy(), 'params': {k: (v if not isinstance(v, np.ndarray) else v.tolist()) for k, v in d.get('params', {}).items()},
             'bins': np.asarray(V.bins, float).copy(), 'exp': np.asarray(V.experimental, float).copy(), 'cof': np.asarray(V.cof, float).copy() if V.cof is not None else None,
-            'n_lags': V.n_lags, 'maxlag': V.maxlag}
+            'n_lags': V.n_lags, 'maxlag': V.maxlag, 'kwargs': repr(sorted((k, repr(v)) for k, v in V._kwargs.items())),
+            'described_kwargs': repr(sorted((k, repr(v)) for k, v in d.get('kwargs', {}).items()))}
 
 
 def state_equal(a, b):
@@ -76,11 +77,20 @@ def run(ctx, replay=None):
             maxlag = rng.choice([None, 'median', 'mean', 0.5, 0.8, (60.0 if not unit else None)])
             kw = dict(model=rng.choice(['spherical', 'exponential', 'gaussian', 'stable']), n_lags=rng.randint(5, 9), maxlag=maxlag,
                       estimator=rng.choice(['matheron', 'cressie']), use_nugget=rng.choice([False, True]), bin_func=rng.choice(['even', 'uniform']))
+            if rng.random() < 0.4:
+                kw['obs_sigma'] = rng.choice([0.25, 1.0])          # a source that carries its own observation uncertainty
             case = {'unit_square': unit, 'kw': {k: v_ for k, v_ in kw.items()}, 'n': len(c)}
+            ctx.count('source_has_obs_sigma', 'obs_sigma' in kw)
             ctx.count('maxlag', repr(maxlag))
             ctx.count('unit_square', unit)
             try:
                 V = Variogram(c, v, **kw)
+                if 'obs_sigma' in kw and V._kwargs.get('obs_sigma') != kw['obs_sigma']:
+                    ctx.problem('oracle', 'the propagation run at construction removed / changed the obs_sigma setting of the source', case, {'passed': kw['obs_sigma'], 'held': V._kwargs.get('obs_sigma')},
+                                {'what': 'source-changed', 'field': 'kwargs'})
+                if 'obs_sigma' not in kw and rng.random() < 0.3:
+                    V.update_kwargs(obs_sigma=0.5)
+                    ctx.count('source_has_obs_sigma', 'updated')
                 before = source_state(V)
             except Exception as e:
                 ctx.count('rejected', type(e).__name__)
@@ -159,6 +169,19 @@ def run(ctx, replay=None):
                     break
             except Exception as e:
                 ctx.count('zero_noise_rejected', type(e).__name__ + ':' + str(e)[:40])
+            # the same seed gives the same intervals however the members are scheduled (worker processes)
+            if t < (2 if not ctx.thorough() else 6):
+                try:
+                    seq = unc.propagate(V, source='values', sigma=sigma, evalf=['experimental'], num_iter=12, seed=seed, q=10)
+                    par = unc.propagate(V, source='values', sigma=sigma, evalf=['experimental'], num_iter=12, seed=seed, q=10, n_jobs=2)
+                    seq, par = np.asarray(seq[0] if isinstance(seq, list) else seq, float), np.asarray(par[0] if isinstance(par, list) else par, float)
+                    if seq.shape != par.shape or not np.allclose(seq, par, rtol=1e-12, atol=1e-12, equal_nan=True):
+                        ctx.problem('oracle', 'the same seed gives other intervals with n_jobs=2 than sequentially', case, {'sequential': seq[:3].tolist(), 'n_jobs_2': par[:3].tolist()}, {'what': 'seed-reproducible-parallel'})
+                    if len({tuple(r) for r in np.round(par, 12).tolist()}) < 2 and len(par) > 2:
+                        pass
+                    ctx.tests['parallel_runs'] = ctx.tests.get('parallel_runs', 0) + 1
+                except Exception as e:
+                    ctx.count('parallel_rejected', type(e).__name__ + ':' + str(e)[:40])
             # the source variogram is untouched
             diff = state_equal(before, source_state(V))
             if diff:
